@@ -434,7 +434,7 @@ def run_c10(ctx):
     ctx.build(["yp"])
     def replay():
         g = ctx.tlc("YangTreeGen", "YangTreeGen.cfg", workers=12, timeout=850, heap="10g",
-                    consts={"Size": '"quick"' if q else '"thorough"', "NFam": 24, "NTrees": 0 if q else 3, "NLay": 4 if q else 25},
+                    consts={"Size": '"quick"' if q else '"thorough"', "NFam": 24, "NTrees": 0 if q else 2, "NLay": 4 if q else 20},
                     extra=["-seed", str(ctx.seed)])
         files = vec_files(g["dir"])
         res = ctx.path("res10.ndjson")
